@@ -158,8 +158,7 @@ def handleC20 (j : Json) : Except String Verdict := do
   | "decode" =>
     let spec := decodesTo d fs (declShape tsh ish) root cs ps cont
     let modelJ := Json.mkObj [("root", jInts E.root), ("cs", jList (E.cs.map jInts)), ("ps", jList (E.ps.map jInts))]
-    let layoutTag := if agreeNonC fs (effShape fs tsh ish) (declShape tsh ish) then [] else ["layoutDiffers"]
-    pure { agree := baseAgree, spec, model := modelJ, tags := shapeTags ++ layoutTag,
+    pure { agree := baseAgree, spec, model := modelJ, tags := shapeTags,
            why := if spec then "" else "decode: arrays do not decode to the content" }
   | "scan" =>
     let agree := baseAgree && sameCount &&
